@@ -19,6 +19,18 @@ type Need struct {
 	OkCalls []string
 	Instr   func(ssa.Instruction) bool
 	Edge    func(*ssa.BasicBlock, int) bool
+	// Kill overrides the Guard's common kill predicate for this need
+	Kill func(ssa.Instruction) bool
+}
+
+// lockOrUnlock: any acquisition or release of a sync mutex.  Used as the kill predicate for
+// facts about lock-protected fields: a value read before the lock was taken, or in an earlier
+// lock region, says nothing about the current region.
+func lockOrUnlock(in ssa.Instruction) bool { return isUnlockCall(in) || isLockCall(in) }
+
+// needWLock: the write lock was taken and not released since.
+func needWLock(desc string) Need {
+	return Need{Desc: desc, Instr: isWLockCall, Kill: isUnlockCall}
 }
 
 func atom(desc string, atoms ...string) Need { return Need{Desc: desc, Atoms: atoms} }
@@ -101,6 +113,13 @@ func (c *Ctx) Guard(rule string, fn *ssa.Function, sites []ssa.Instruction, site
 					return false
 				},
 				Kill: kill,
+			}
+			// the common kill predicate invalidates facts about (lock-protected) state, i.e.
+			// atom needs; "X happened" needs are only killed when they say so themselves
+			if nd.Kill != nil {
+				q.Kill = nd.Kill
+			} else if len(nd.Atoms) == 0 {
+				q.Kill = nil
 			}
 			ws := q.Run()
 			where := c.P.InstrPos(site)
@@ -193,4 +212,9 @@ func (P *Prog) methodsOf(pkgShort, typ string) []*ssa.Function {
 // withClosures returns fn followed by all its nested anonymous functions.
 func withClosures(fn *ssa.Function) []*ssa.Function {
 	return append([]*ssa.Function{fn}, Closures(fn)...)
+}
+
+// needLock: some lock (read or write) was taken and not released since.
+func needLock(desc string) Need {
+	return Need{Desc: desc, Instr: isLockCall, Kill: isUnlockCall}
 }
